@@ -30,6 +30,9 @@ pub(super) enum QuorumError {
         total_voting_power: u64,
     },
 
+    #[error("commit contained more than one vote of validator `{validator}`")]
+    DuplicateVote { validator: tendermint::account::Id },
+
     #[error("commit contained an empty signature field for validator `{validator}`")]
     EmptySignature { validator: tendermint::account::Id },
 
@@ -113,6 +116,7 @@ pub(super) fn ensure_commit_has_quorum(
         .collect::<HashMap<_, _>>();
 
     let mut commit_voting_power = 0u64;
+    let mut validators_seen = std::collections::HashSet::new();
     for vote in &commit.signatures {
         // we only care about votes that are for the Commit.BlockId (ignore absent validators and
         // votes for nil)
@@ -137,6 +141,13 @@ pub(super) fn ensure_commit_has_quorum(
                 validator: *validator_address,
             });
         };
+
+        // a validator's voting power must only be counted once
+        if !validators_seen.insert(*validator_address) {
+            return Err(QuorumError::DuplicateVote {
+                validator: *validator_address,
+            });
+        }
 
         // verify address in signature matches validator pubkey
         let address_from_pubkey = tendermint::account::Id::from(validator.pub_key);
